@@ -445,12 +445,15 @@ class Machine(Interp):
                     if d.get('kind') == 'VarDecl' and d.get('storageClass') != 'static':
                         declared.append(d['id'])
             nxt = []
+            before = len(cur)
             for s2, ctl in cur:
                 nxt.extend(self.exec_stmt(s2, c))
             cur = []
             for s2, ctl in nxt:
                 (done if ctl is not None else cur).append((s2, ctl))
-            if len(cur) > 1:
+            # states that did not fork in this statement were already compared with each other;
+            # anything that became equal meanwhile is merged at the end of the enclosing statement
+            if len(cur) > 1 and len(nxt) != before:
                 cur = self.merge(cur)
             if not cur:
                 break
